@@ -80,7 +80,7 @@ Definition refuses (p : prog io) (s : fs) : Prop :=
   forall o i w nf, let r := run_acc o i p s w nf in ofs r = s /\ ores r = IErr /\ owarn r = w.
 
 Lemma do_call_stateless f c s :
-  match c with OpenW _ | LockW _ | UnlockW _ | Exists _ | IsDir _ | OpenR _ => True | _ => False end ->
+  match c with OpenW _ | LockW _ | UnlockW _ | Exists _ | IsDir _ | OpenR _ | LExists _ => True | _ => False end ->
   snd (do_call f c s) = s.
 Proof.
   intros H. destruct f as [ft|]; [|apply stateless_nat; exact H].
@@ -108,10 +108,11 @@ Proof.
   destruct (names s p) as [[i| |t]|]; try discriminate; eauto. congruence.
 Qed.
 
-Lemma c18_no_overwrite sl src tgt rn now s : names s (norm tgt) <> None -> ~ dangling_link s (norm tgt) ->
+Lemma c18_no_overwrite sl src tgt rn now s : names s (norm tgt) <> None ->
   forall o i, let r := run o i (prog_of sl (FMove src tgt rn now)) s in ofs r = s /\ ores r = IErr /\ owarn r = 0%nat.
 Proof.
-  intros Hn Hd o i. pose proof (exists_true_when_resolves _ _ Hn Hd) as He.
+  intros Hn o i.
+  assert (He : lexists s (norm tgt) = true) by (unfold lexists; destruct (names s (norm tgt)); congruence).
   assert (Hcopy : refuses (move_copy src tgt now) s).
   { intros o' i' w nf. unfold move_copy. cbn [run_acc]. cbn [fault_for is_query do_call]. unfold nat_call. cbn [ncall nat_ncall fst snd].
     rewrite He. cbn [run_acc ofs ores owarn]. auto. }
@@ -181,6 +182,8 @@ Lemma file_bytes_locks s l p : file_bytes (set_locks s l) p = file_bytes s p.
 Proof. unfold file_bytes. rewrite follow_locks. destruct (follow s p) as [q [i| |t]|q|]; auto. Qed.
 Lemma exists_follow_locks s l p : exists_follow (set_locks s l) p = exists_follow s p.
 Proof. unfold exists_follow. now rewrite follow_locks. Qed.
+Lemma lexists_locks s l p : lexists (set_locks s l) p = lexists s p.
+Proof. reflexivity. Qed.
 
 Ltac head_destruct :=
   repeat (match goal with
@@ -198,7 +201,7 @@ Lemma nat_ncall_locks c s l : (forall a, c <> LockW a) ->
   nat_ncall c (set_locks s l) = (fst (nat_ncall c s), set_locks (snd (nat_ncall c s)) l).
 Proof.
   intros Hc. destruct c; cbn [nat_ncall]; try (exfalso; eapply Hc; reflexivity);
-    unfold src_bytes; rewrite ?follow_locks, ?write_target_locks, ?file_bytes_locks, ?exists_follow_locks, ?is_dir_locks;
+    unfold src_bytes; rewrite ?follow_locks, ?write_target_locks, ?file_bytes_locks, ?exists_follow_locks, ?lexists_locks, ?is_dir_locks;
     change (names (set_locks s l)) with (names s); change (inodes (set_locks s l)) with (inodes s);
     head_destruct; reflexivity.
 Qed.
